@@ -528,7 +528,12 @@ def _op_merkle(ctx, W, st):
     exp = mm.merkle_root(hs)
     ctx.probe("merkle_direct")
     try:
-        got = merkle(list(hs))
+        mine = list(hs)
+        got = merkle(mine)
+        # the caller's list is the caller's: a second computation from the same list object must agree
+        got3 = merkle(mine)
+        if mine != hs or bytes(got3) != bytes(got):
+            ctx.violate("C14", "merkle-modified-callers-list", {"n": st["n"], "len_after": len(mine)})
         got2 = merkle(tuple(hs)) if st["n"] % 2 == 0 else got
     except Exception as e:
         ctx.violate("C14", "merkle-raised", {"n": st["n"], "exc": type(e).__name__})
